@@ -56,6 +56,7 @@
 
 #include <algorithm>
 #include <array>
+#include <cfloat>
 #include <cmath>
 #include <set>
 
@@ -92,7 +93,12 @@ std::string descDiff(const Desc& a, const Desc& b, double relTol, double absTol)
         if (ua || ub) same = (ua && ub);
         else if (x.d == y.d) same = true;
         else if (std::isinf(x.d) || std::isinf(y.d)) same = false;
-        else same = std::fabs(x.d - y.d) <= relTol * std::max(std::fabs(x.d), std::fabs(y.d)) + absTol;
+        else
+        {
+          // the few ulps cover the representation error of the bound itself
+          double m = std::max(std::fabs(x.d), std::fabs(y.d));
+          same = std::fabs(x.d - y.d) <= relTol * m + absTol + 4. * DBL_EPSILON * m;
+        }
       }
     }
     if (!same) return x.key + ": " + entryText(x) + " vs " + entryText(y);
@@ -697,7 +703,10 @@ ASerializable* makeModel(Rng& r)
     for (auto& x : means) x = r.chance(0.2) ? 0. : 10. * r.gauss();
     m->setMeans(means);
   }
-  if (r.chance(0.5)) m->setField(r.uniform(1., 500.));
+  bool needField = false; // generalised covariances are scaled by the field extension
+  for (int ic = 0; ic < m->getCovaNumber(); ic++)
+    if (m->getCovaType(ic) == ECov::LINEAR || m->getCovaType(ic) == ECov::POWER) needField = true;
+  if (needField || r.chance(0.5)) m->setField(r.uniform(1., 500.));
   if (r.chance(0.3)) m->setCovar0s(psdMatrix(r, nvar));
   return m;
 }
@@ -721,10 +730,7 @@ void describeModel(const ASerializable* o, Desc& d)
     d.D(k + ".param", c->getParam());
     d.I(k + ".aniso", c->getFlagAniso());
     d.I(k + ".rotated", c->getFlagRotation());
-    d.VD(k + ".ranges", c->getRanges());
-    d.VD(k + ".scales", c->getScales());
     d.VD(k + ".coeffs", c->getAnisoCoeffs());
-    d.VD(k + ".angles", c->getAnisoAngles());
     d.VD(k + ".rotmat", c->getAnisoRotMat().getValues());
     const MatrixSquareSymmetric& s = c->getSill();
     d.I(k + ".sill.n", s.getNRows());
@@ -799,6 +805,15 @@ void probeModel(ASerializable* o, Desc& d)
   if (ndim > 3 || nvar > 6) { d.S("probe", "skipped (too large)"); return; }
   int nfex = std::min(m->getExternalDriftNumber(), 4);
   Db* db = probeDb(ndim, 5, nvar, nfex);
+  for (int ic = 0; ic < m->getCovaNumber(); ic++)
+  {
+    // derived from the stored range, coefficients and rotation matrix
+    const CovAniso* c = m->getCova(ic);
+    std::string k = "cov" + std::to_string(ic);
+    d.VD(k + ".ranges", c->getRanges());
+    d.VD(k + ".scales", c->getScales());
+    d.VD(k + ".angles", c->getAnisoAngles());
+  }
   if (m->getCovaNumber() > 0)
   {
     MatrixRectangular c = m->evalCovMatrix(db);
@@ -830,7 +845,7 @@ ASerializable* makeNeighMoving(Rng& r)
   int nmaxi = r.chance(0.2) ? 1000 : (int)r.range(1, 30);
   int nmini = (int)r.range(1, std::min(nmaxi, 5));
   double radius = r.chance(0.15) ? TEST : (r.chance(0.3) ? (double)r.range(1, 50) : r.uniform(0.5, 50.));
-  int nsect = r.chance(0.5) ? 1 : (int)r.range(2, 8);
+  int nsect = (ndim == 1 || r.chance(0.5)) ? 1 : (int)r.range(2, 8);
   int nsmax = r.chance(0.5) ? ITEST : (int)r.range(1, 5);
   VectorDouble coeffs, angles;
   // the distance checker assumes 2-D when no coefficient is given: give them whenever ndim != 2
@@ -1191,8 +1206,10 @@ void probePolygons(ASerializable* o, Desc& d)
   std::string why = consistentPolygons(o);
   d.S("consistent", why);
   if (!why.empty()) return;
-  static const double Q[10][3] = {{5, 5, 0},   {0, 0, 1},  {2.5, 7, -1}, {8, 3, 4},    {10, 10, 0},
-                                  {4, 4, -3},  {6, 1, 2},  {1, 9, 0.5},  {7.5, 7.5, 8}, {3, 2, -0.5}};
+  // (no round coordinate: a target sitting exactly on an edge would flip with the 15-digit rounding of the file)
+  static const double Q[10][3] = {{5.013, 5.027, 0.1},  {0.011, 0.017, 1.1}, {2.517, 7.033, -1.1}, {8.019, 3.023, 4.1},
+                                  {9.871, 9.913, 0.2},  {4.037, 4.041, -3.},  {6.043, 1.047, 2.1},  {1.051, 8.957, 0.5},
+                                  {7.517, 7.523, 8.1},  {3.061, 2.067, -0.5}};
   for (int i = 0; i < 10; i++)
   {
     VectorDouble c2 = {Q[i][0], Q[i][1]};
@@ -1204,7 +1221,7 @@ void probePolygons(ASerializable* o, Desc& d)
   if (p->getPolyElemNumber() > 0)
   {
     d.D("surface", p->getSurface());
-    double a, b, c, e;
+    double a = 1e300, b = -1e300, c = 1e300, e = -1e300; // in/out arguments
     p->getExtension(&a, &b, &c, &e);
     d.D("xmin", a); d.D("xmax", b); d.D("ymin", c); d.D("ymax", e);
   }
@@ -1330,14 +1347,56 @@ ASerializable* makeAnamEmpirical(Rng& r)
   delete db;
   return a;
 }
+// The fit of the diffusion model needs factors computed beforehand by a PCA/MAF workflow; the
+// object is therefore filled through its public reset() from explicit (coherent) arrays.
 ASerializable* makeAnamDD(Rng& r)
 {
   VectorDouble z;
   Db* db = anamData(r, &z);
-  AnamDiscreteDD* a = AnamDiscreteDD::create(r.chance(0.5) ? 1. : r.uniform(0.5, 3.), r.chance(0.6) ? 0. : r.uniform(0.1, 0.9));
-  a->setZCut(cutoffsFor(r, z));
-  (void)a->fit(db, "grade"); // the fit of this class reports 1 on success
   delete db;
+  VectorDouble zcut = cutoffsFor(r, z);
+  int ncut = (int)zcut.size(), nclass = ncut + 1;
+  AnamDiscreteDD* a = AnamDiscreteDD::create();
+  int nelem = a->getNElem();
+  // invertible ncut x ncut matrix and its inverse (Gauss-Jordan)
+  std::vector<std::vector<double>> A(ncut, std::vector<double>(ncut)), B(ncut, std::vector<double>(ncut, 0.));
+  for (int i = 0; i < ncut; i++)
+    for (int j = 0; j < ncut; j++) A[i][j] = (i == j ? 1. + r.uniform(0., 1.) : r.uniform(-0.3, 0.3));
+  std::vector<std::vector<double>> W = A;
+  for (int i = 0; i < ncut; i++) B[i][i] = 1.;
+  for (int c = 0; c < ncut; c++)
+  {
+    double pv = W[c][c];
+    for (int j = 0; j < ncut; j++) { W[c][j] /= pv; B[c][j] /= pv; }
+    for (int i = 0; i < ncut; i++)
+      if (i != c)
+      {
+        double f = W[i][c];
+        for (int j = 0; j < ncut; j++) { W[i][j] -= f * W[c][j]; B[i][j] -= f * B[c][j]; }
+      }
+  }
+  MatrixSquareGeneral z2f(ncut), f2z(ncut);
+  for (int i = 0; i < ncut; i++)
+    for (int j = 0; j < ncut; j++) { z2f.setValue(i, j, A[i][j]); f2z.setValue(i, j, B[i][j]); }
+  // statistics per class (column major): proportion, mean grade, c_s, lambda, U, mul
+  VectorDouble props(nclass), stats((size_t)nclass * nelem, 0.);
+  double tot = 0.;
+  for (auto& p : props) { p = r.uniform(0.2, 1.); tot += p; }
+  double zm = r.uniform(0.1, 0.5);
+  for (int ic = 0; ic < nclass; ic++)
+  {
+    double col[6] = {props[ic] / tot, zm, r.gauss(), ic == 0 ? 0. : (ic == 1 ? 1. : 1. + r.uniform(0.1, 3.) * ic), r.uniform(0.1, 2.),
+                     r.uniform(0.3, 1.)};
+    zm += r.uniform(0.2, 1.5);
+    for (int e = 0; e < nelem && e < 6; e++) stats[(size_t)e * nclass + ic] = col[e];
+  }
+  a->reset(ncut, r.chance(0.5) ? 0. : r.uniform(0.1, 0.9), r.chance(0.5) ? 1. : r.uniform(0.5, 3.), zcut, z2f, f2z, stats);
+  if (r.chance(0.6))
+  {
+    MatrixSquareGeneral q(nclass);
+    for (int i = 0; i < nclass; i++) for (int j = 0; j < nclass; j++) q.setValue(i, j, r.gauss());
+    a->setI2Chi(q);
+  }
   return a;
 }
 ASerializable* makeAnamIR(Rng& r)
@@ -1458,7 +1517,7 @@ void probeAnam(ASerializable* o, Desc& d)
     for (int k = 1; k <= nmax && k <= 3; k++) ifacs.push_back(k);
     const AnamDiscreteDD* q = dynamic_cast<const AnamDiscreteDD*>(o);
     bool ok = !ifacs.empty() && (q == nullptr || q->getI2Chi().getNRows() >= a->getNClass());
-    if (q != nullptr && !ok) d.S("factors", "no inverse anamorphosis matrix");
+    d.S("factors", ok ? "available" : (ifacs.empty() ? "no class" : "no inverse anamorphosis matrix"));
     if (ok)
       for (size_t i = 0; i < ZV.size(); i += 2) d.VD("fac" + std::to_string(i), a->z2factor(ZV[i], ifacs));
   }
@@ -1499,14 +1558,7 @@ void describeMesh(const ASerializable* o, Desc& d)
   d.I("ncorner", m->getNApexPerMesh());
   d.I("napices", m->getNApices());
   d.I("nmeshes", m->getNMeshes());
-  bool box = meshHasBox(m);
-  d.I("hasbox", box);
-  if (box)
-    for (int k = 0; k < ndim; k++)
-    {
-      d.D("extmin" + std::to_string(k), m->getExtendMin(k));
-      d.D("extmax" + std::to_string(k), m->getExtendMax(k));
-    }
+  d.I("hasbox", meshHasBox(m));
   if (const MeshEStandard* s = dynamic_cast<const MeshEStandard*>(o))
   {
     d.I("apices.nrows", s->getApices().getNRows());
@@ -1569,6 +1621,12 @@ void probeMesh(ASerializable* o, Desc& d)
   if (!why.empty()) return;
   int ndim = m->getNDim(), na = m->getNApices(), nm = m->getNMeshes(), nc = m->getNApexPerMesh();
   if (ndim < 1) return;
+  if (meshHasBox(m)) // bounding box: derived from the apices or the grid
+    for (int k = 0; k < ndim; k++)
+    {
+      d.D("extmin" + std::to_string(k), m->getExtendMin(k));
+      d.D("extmax" + std::to_string(k), m->getExtendMax(k));
+    }
   int pick[4] = {0, nm / 3, nm / 2, nm - 1};
   for (int q = 0; q < 4; q++)
   {
@@ -1647,9 +1705,11 @@ void probeTable(ASerializable* o, Desc& d)
   d.D("first", t->getValue(0, 0));
   d.D("last", t->getValue(nr - 1, nc - 1));
   d.D("mid", t->getValue(nr / 2, nc / 2));
-  d.S("rowname0", t->getRowName(0));
-  d.S("colname0", t->getColumnName(0));
-  d.S("colnameLast", t->getColumnName(nc - 1));
+  // the name getters index the name vectors without checking that they were ever filled
+  bool rn = (int)t->getRowNames().size() == nr, cn = (int)t->getColumnNames().size() == nc;
+  d.S("rowname0", rn ? t->getRowName(0) : std::string("<unnamed>"));
+  d.S("colname0", cn ? t->getColumnName(0) : std::string("<unnamed>"));
+  d.S("colnameLast", cn ? t->getColumnName(nc - 1) : std::string("<unnamed>"));
   d.VD("range0", t->getRange(0));
 }
 
@@ -1699,14 +1759,15 @@ void describeNode(const Node* n, const std::string& k, int depth, Desc& d)
 {
   if (n == nullptr) { d.S(k, "none"); return; }
   if (depth > 40) { d.S(k, "too deep"); return; }
-  d.S(k + ".name", n->getNodnam());
+  d.I(k + ".leaf", n->getR1() == nullptr && n->getR2() == nullptr); // (node labels are regenerated: not compared)
   d.I(k + ".orient", n->getOrient());
-  d.I(k + ".facies", n->getFacies());
   if (n->getR1() != nullptr || n->getR2() != nullptr)
   {
     describeNode(n->getR1(), k + "a", depth + 1, d);
     describeNode(n->getR2(), k + "b", depth + 1, d);
   }
+  else
+    d.I(k + ".facies", n->getFacies()); // only meaningful on leaves
 }
 void describeRule(const ASerializable* o, Desc& d)
 {
@@ -1911,7 +1972,7 @@ std::vector<ClassAdapter> buildAdapters()
   add("DbLine", makeDbLine, [] { return (ASerializable*)new DbLine(); }, nfLoader<DbLine>(), describeDbAny, consistentDbAny, probeDbAny);
   add("DbGraphO", makeDbGraphO, [] { return (ASerializable*)new DbGraphO(); }, nfLoader<DbGraphO>(), describeDbAny, consistentDbAny, probeDbAny);
   add("DbMeshTurbo", makeDbMeshTurbo, [] { return (ASerializable*)new DbMeshTurbo(); }, nfLoader<DbMeshTurbo>(), describeDbAny, consistentDbAny, probeDbAny);
-  add("DbMeshStandard", makeDbMeshStandard, [] { return (ASerializable*)new DbMeshStandard(); }, nfLoader<DbMeshStandard>(), describeDbAny, consistentDbAny, probeDbAny);
+  add("DbMeshStandard", makeDbMeshStandard, [] { return (ASerializable*)new DbMeshStandard(1, 2, VectorDouble(), VectorInt()); } /* the default arguments (ndim = 0) divide by zero */, nfLoader<DbMeshStandard>(), describeDbAny, consistentDbAny, probeDbAny);
   add("Model", makeModel, [] { return (ASerializable*)new Model(); }, nfLoader<Model>(), describeModel, consistentModel, probeModel);
   add("NeighUnique", makeNeighUnique, [] { return (ASerializable*)new NeighUnique(); }, nfLoader<NeighUnique>(), describeNeigh, consistentNeigh, probeNeigh);
   add("NeighMoving", makeNeighMoving, [] { return (ASerializable*)new NeighMoving(); }, nfLoader<NeighMoving>(), describeNeigh, consistentNeigh, probeNeigh);
